@@ -41,11 +41,29 @@ def doc_part(pid, tier):
     return divs, cov
 
 
-PARTS = {'element': _elem.element_part, 'values': values_part, 'doc': doc_part}
+def suite_part(pid, tier):
+    from .. import suite
+    r = suite.run_suite()
+    divs = [dict(key=d['key'], cls=d['cls'], what=d['what'], replay=d['replay']) for d in r['divergences'] if d['pid'] == pid]
+    per_clause = {c: v for c, v in r['counts'].items() if c.startswith(pid + '_')}
+    cov = dict(states=r['tv_states'], transitions=r['tv_states'], traces_validated_against_impl=r['events'], evaluations=r['events'],
+               distinct_nontrivial=max(per_clause.values()) if per_clause else 0,
+               rule='the repository\'s own 192 tests run under a recorder (pytest plugin from /verif); every outermost add_child / remove / replace_child / '
+                    'to_string / xml_x assignment on an element with a content model is one recorded step judged by TLC (ElementTrace); '
+                    'distinct_nontrivial = steps exercising the most-exercised clause of this property',
+               exercised_per_clause=per_clause, operations=r['opcount'], pytest=r['pytest'], campaign_cache_hit=r['cache_hit'],
+               campaign_wall_s=r['wall'], samples=r['samples'])
+    return divs, cov
+
+
+PARTS = {'element': _elem.element_part, 'values': values_part, 'doc': doc_part, 'suite': suite_part}
 SOURCES = {
     'C04': ['values'], 'C05': ['values'],
     'C08': ['doc'], 'C09': ['doc'], 'C14': ['doc'],
-    'C10': ['element', 'values'], 'C15': ['element', 'values'], 'C16': ['element', 'values', 'doc'], 'C19': ['element', 'values', 'doc'],
+    'C01': ['element', 'suite'], 'C02': ['element', 'suite'], 'C06': ['element', 'suite'], 'C07': ['element', 'suite'],
+    'C11': ['element'], 'C12': ['element', 'suite'], 'C18': ['element', 'suite'],
+    'C10': ['element', 'values', 'suite'], 'C15': ['element', 'values', 'suite'], 'C16': ['element', 'values', 'doc', 'suite'],
+    'C19': ['element', 'values', 'doc', 'suite'],
 }
 ASSUME_VALUES = [
     'oracle: simple-type tables and pattern automata generated from the pinned XSD; lexical spaces defined in spec/Lexical.tla (guarded by LexicalTest examples)',
@@ -62,6 +80,9 @@ ASSUME_DOC = [
     'no-silent-loss allows the parser to re-order children (multiset matching of subtrees), not to drop or alter them',
     'the exception class the parser uses for input it refuses is not judged',
 ]
+
+
+ASSUME_SUITE = ['the recorder skips elements first seen with children already attached and calls it cannot describe (predicate-form replace_child)']
 
 
 def merge(covs):
@@ -87,7 +108,7 @@ def run_multi(pid, tier, replay=None):
         d, c = PARTS[src](pid, tier)
         divs += d
         covs.append((src, c))
-        assume += _elem.ASSUME if src == 'element' else (ASSUME_VALUES if src == 'values' else ASSUME_DOC)
+        assume += {'element': _elem.ASSUME, 'values': ASSUME_VALUES, 'doc': ASSUME_DOC, 'suite': ASSUME_SUITE}[src]
     return common.conclude(pid, tier, divs, merge(covs), t0, assumptions=assume)
 
 
